@@ -105,7 +105,7 @@ func ruleBucketCacheKey(c *report.Ctx) {
 			okKey = true // the BucketMeta itself
 		}
 		d := p.Desc(k)
-		if strings.Contains(d, "joinBucketPath(") && strings.Contains(d, ".Paths(") {
+		if strings.Contains(d, nm(fnOpt(c, pkgLDB, "", "joinBucketPath"))+"(") && strings.Contains(d, ".Paths(") {
 			okKey = true
 		}
 		kk := siteKey(f, "cache-key", n)
@@ -288,7 +288,7 @@ func ruleDecoderTotality(c *report.Ctx) {
 					if st == nil {
 						return "", false
 					}
-					names = append([]string{st.Field(x.Field).Name()}, names...)
+					names = append([]string{an.FName(st, x.Field)}, names...)
 					cur = x.X
 					continue
 				case *ssa.UnOp:
@@ -637,7 +637,7 @@ func ruleBranchKeyAgreement(c *report.Ctx) {
 				if !ok || fa.X != ld.X {
 					return
 				}
-				if derefStructT(fa.X.Type()).Field(fa.Field).Name() == "Branch" {
+				if an.FName(derefStructT(fa.X.Type()), fa.Field) == "Branch" {
 					if k, isK := constInt(st.Val); isK {
 						recorded = append(recorded, k)
 					}
@@ -927,7 +927,7 @@ func ruleBranchCacheComplete(c *report.Ctx) {
 		if st == nil {
 			return ""
 		}
-		return st.Field(fa.Field).Name()
+		return an.FName(st, fa.Field)
 	}
 	fields := map[string]bool{}
 	var collect func(a an.Atom)
@@ -966,7 +966,7 @@ func ruleBranchCacheComplete(c *report.Ctx) {
 					return false
 				}
 				stt := derefStructT(fa.X.Type())
-				return stt != nil && stt.Field(fa.Field).Name() == name && !an.IsNilConst(st.Val)
+				return stt != nil && an.FName(stt, fa.Field) == name && !an.IsNilConst(st.Val)
 			},
 			GoalReturn: func(r *ssa.Return, pred *ssa.BasicBlock) bool { return p.ClassifyReturn(r, pred) != an.RetError },
 		}
@@ -1104,7 +1104,7 @@ func ruleChildPure(c *report.Ctx) {
 			if !ok || len(f.Params) == 0 || fa.X != ssa.Value(f.Params[0]) {
 				return
 			}
-			fname := derefStructT(fa.X.Type()).Field(fa.Field).Name()
+			fname := an.FName(derefStructT(fa.X.Type()), fa.Field)
 			if _, isOK := allowed[fname]; isOK {
 				return
 			}
@@ -1198,7 +1198,7 @@ func ruleOverlaySequence(c *report.Ctx) {
 				return false
 			}
 			fa, ok := st.Addr.(*ssa.FieldAddr)
-			if !ok || derefStructT(fa.X.Type()).Field(fa.Field).Name() != "seqNo" {
+			if !ok || an.FName(derefStructT(fa.X.Type()), fa.Field) != "seqNo" {
 				return false
 			}
 			return isAddOne(st.Val, nil)
@@ -1278,7 +1278,7 @@ func rulePayloadBeforeFeeLoop(c *report.Ctx) {
 	reads := false
 	an.Instrs(ac, func(in ssa.Instruction) {
 		if fa, ok := in.(*ssa.FieldAddr); ok {
-			if st := derefStructT(fa.X.Type()); st != nil && st.Field(fa.Field).Name() == "Payload" {
+			if st := derefStructT(fa.X.Type()); st != nil && an.FName(st, fa.Field) == "Payload" {
 				reads = true
 			}
 		}
@@ -1479,7 +1479,7 @@ func ruleRelevantIndex(c *report.Ctx, floor int) {
 			// any use of the field (range, len, index) makes this a walk over the relevant list
 			if fa, ok := in.(*ssa.FieldAddr); ok {
 				if st := derefStructT(fa.X.Type()); st != nil {
-					switch st.Field(fa.Field).Name() {
+					switch an.FName(st, fa.Field) {
 					case "RelevantTxIn":
 						rel["TxIn"] = true
 					case "RelevantTxOut":
@@ -1541,7 +1541,7 @@ func ruleSelectionResetOnDelete(c *report.Ctx) {
 			return false
 		}
 		fa, ok := st.Addr.(*ssa.FieldAddr)
-		return ok && derefStructT(fa.X.Type()).Field(fa.Field).Name() == "currentKeystore"
+		return ok && an.FName(derefStructT(fa.X.Type()), fa.Field) == "currentKeystore"
 	}
 	calleeOf := func(in ssa.Instruction) *ssa.Function {
 		if cc := an.CallOf(in); cc != nil {
@@ -1720,7 +1720,7 @@ func ruleFastForwardGate(c *report.Ctx) {
 		// single-store cells are resolved by the guard engine: accept a guard that is directly !(len(getReadyWallets)>0)
 		direct := an.AnyAtom(p.GuardsOf(skip), func(a an.Atom) bool {
 			d := p.Desc(a.X)
-			return strings.Contains(d, "getReadyWallets") && (a.Op == token.LEQ || a.Op == token.EQL)
+			return strings.Contains(d, nm(grw)) && (a.Op == token.LEQ || a.Op == token.EQL)
 		})
 		if direct {
 			c.OK(sk(st)+":fast-forward-gate", "guarded by len(getReadyWallets()) == 0", posOf(c, skip))
@@ -1762,7 +1762,7 @@ func ruleFastForwardGate(c *report.Ctx) {
 			case *ssa.Const:
 				okv, why = true, "constant"
 			case *ssa.BinOp:
-				if x.Op == token.GTR && strings.HasPrefix(p.Desc(x.X), "len(") && strings.Contains(p.Desc(x.X), "getReadyWallets") {
+				if x.Op == token.GTR && strings.HasPrefix(p.Desc(x.X), "len(") && strings.Contains(p.Desc(x.X), nm(grw)) {
 					if k, isK := constInt(x.Y); isK && k == 0 {
 						okv, why = true, "len(getReadyWallets()) > 0"
 					}
@@ -2186,7 +2186,7 @@ func ruleChildNumberRoles(c *report.Ctx) {
 					if !ok {
 						continue
 					}
-					name := derefStructT(fa.X.Type()).Field(fa.Field).Name()
+					name := an.FName(derefStructT(fa.X.Type()), fa.Field)
 					ln := strings.ToLower(name)
 					isInt, isExt := strings.Contains(ln, "internal"), strings.Contains(ln, "external")
 					if !isInt && !isExt {
@@ -2253,7 +2253,7 @@ func ruleWipedCacheDropped(c *report.Ctx) {
 					return false
 				}
 				fa, ok := st.Addr.(*ssa.FieldAddr)
-				return ok && derefStructT(fa.X.Type()).Field(fa.Field).Name() == field
+				return ok && an.FName(derefStructT(fa.X.Type()), fa.Field) == field
 			},
 			GoalBlock:  func(b, pred *ssa.BasicBlock) bool { return hdr != nil && b == hdr },
 			GoalReturn: func(r *ssa.Return, pred *ssa.BasicBlock) bool { return true },
@@ -2347,7 +2347,7 @@ func ruleImportRetryOverride(c *report.Ctx) {
 					continue
 				}
 				ph, ok := a.X.(*ssa.Phi)
-				if !ok || !strings.Contains(p.Desc(ph), "asyncImport") {
+				if !ok || !strings.Contains(p.Desc(ph), nm(ai)) {
 					continue
 				}
 				for i, e := range ph.Edges {
@@ -2366,7 +2366,7 @@ func ruleImportRetryOverride(c *report.Ctx) {
 						if g.Op != token.EQL {
 							return false
 						}
-						isErr := func(v ssa.Value) bool { return v != nil && strings.Contains(p.Desc(v), "asyncImport") }
+						isErr := func(v ssa.Value) bool { return v != nil && strings.Contains(p.Desc(v), nm(ai)) }
 						isSent := func(v ssa.Value) bool {
 							ld, ok := v.(*ssa.UnOp)
 							if !ok {
@@ -2625,7 +2625,7 @@ func rulePrefixTerminated(c *report.Ctx) {
 					}
 				}
 				return false, "joinBucketPath(…) without the terminating empty element"
-			case strings.HasPrefix(cal.Name(), "innerKey"):
+			case cal == fnOpt(c, pkgLDB, "levelBucket", "innerKey") || cal == fnOpt(c, pkgLDB, "levelBucket", "innerKeyForIterator"):
 				return true, ""
 			}
 			return false, p.Desc(v)
